@@ -13,7 +13,7 @@ VARIABLES h, done
 gvars == <<vars, h, done>>
 GS == SeqsUpTo(GA, GL)
 GP == 0..(GL + 1)
-GSz == { <<p, "">> : p \in GP } \cup { <<0, h>> : h \in GH }     \* sizes of `sub': small positions and symbolic sizes
+GSz == { <<p, "">> : p \in GP } \cup { <<0, hn>> : hn \in GH }     \* sizes of `sub': small positions and symbolic sizes
 OC(fn, i, j, k, s1, s2, n1, n2) == [op |-> "o", fn |-> fn, i |-> i, j |-> j, k |-> k, s1 |-> s1, s2 |-> s2, n1 |-> n1, n2 |-> n2, hg |-> <<"", "">>]
 OCH(fn, i, j, b, n) == [op |-> "o", fn |-> fn, i |-> i, j |-> j, k |-> 0, s1 |-> <<>>, s2 |-> <<>>, n1 |-> b[1], n2 |-> n[1], hg |-> <<b[2], n[2]>>]
 Do(o) == Obj(o, <<>>) /\ h' = Append(h, o)
